@@ -118,16 +118,16 @@ CreationOperatorPart::CreationOperatorPart(const IndexClassification &IndexInfo,
 const CreationOperatorPart& AnnihilationOperatorPart::transpose() const
 {
     CreationOperatorPart *CX = new CreationOperatorPart(IndexInfo, S, HTo, HFrom, PIndex); // swapped h_to and h_from
-    CX->elementsRowMajor = elementsRowMajor.transpose();
-    CX->elementsColMajor = elementsColMajor.transpose();
+    CX->elementsRowMajor = elementsRowMajor.adjoint(); // Hermitian conjugate: the eigenvectors are complex in the complex build
+    CX->elementsColMajor = elementsColMajor.adjoint();
     return *CX;
 }
 
 const AnnihilationOperatorPart& CreationOperatorPart::transpose() const
 {
     AnnihilationOperatorPart *C = new AnnihilationOperatorPart(IndexInfo, S, HTo, HFrom, PIndex); // swapped h_to and h_from
-    C->elementsRowMajor = elementsRowMajor.transpose();
-    C->elementsColMajor = elementsColMajor.transpose();
+    C->elementsRowMajor = elementsRowMajor.adjoint();
+    C->elementsColMajor = elementsColMajor.adjoint();
     return *C;
 }
 
